@@ -1,9 +1,25 @@
 (* The sequential client model refines its reference monitors, for every history, every
    configuration and every environment script (induction over the operation list). *)
 From FF Require Import model.Bytes model.Show model.Msgp model.Forward model.Handshake model.Client model.ClientSpec
-  proofs.Bytes_Proofs.
+  proofs.Bytes_Proofs proofs.Handshake_Proofs.
 From Coq Require Import Lia.
 Open Scope N_scope.
+
+(* the ack decoder never panics *)
+Lemma U_ack_loop_np p : forall f cnt bs a, np (U_ack_loop p f cnt bs a).
+Proof.
+  induction f as [|f IH]; intros; [apply np_err|].
+  cbn [U_ack_loop].
+  destruct (cnt =? 0); [apply np_ok|].
+  apply bind_not_panic; [apply rd_field_key_np|]. intros [k r].
+  destruct (bytes_eqb k k_ack).
+  - apply bind_not_panic; [apply rd_str_np|]. intros [v r']. apply IH.
+  - apply bind_not_panic; [apply skip_np|]. intros r'. apply IH.
+Qed.
+Theorem U_ack_not_panic p bs : U_ack p bs <> Panic.
+Proof.
+  unfold U_ack. apply bind_not_panic; [apply rd_map_hdr_np|]. intros [c r]. apply U_ack_loop_np.
+Qed.
 
 Section Client.
   Variable H : bytes -> bytes.
@@ -113,22 +129,22 @@ Section Client.
     end.
 
   Theorem run_monitored cf : forall ops s,
-    monitor (has_key cf) (s_sess s) (history ops (fst (run H cf s ops))) = true.
+    monitor (has_key cf) (s_sess s) (history ops (fst (runs H cf s ops))) = true.
   Proof.
-    induction ops as [|o ops IH]; intros s; cbn [run history monitor fst]; [reflexivity|].
+    induction ops as [|o ops IH]; intros s; cbn [runs history monitor fst]; [reflexivity|].
     destruct (step H cf s o) as [[s1 e] x] eqn:Es.
-    destruct (run H cf s1 ops) as [l s2] eqn:Er. cbn [fst history monitor].
+    destruct (runs H cf s1 ops) as [l s2] eqn:Er. cbn [fst history monitor].
     rewrite (step_monitored _ _ _ _ _ _ Es).
     specialize (IH s1). now rewrite Er in IH.
   Qed.
 
   (* the monitor's reference state is the client's own session state *)
   Theorem run_final_state cf : forall ops s l s',
-    run H cf s ops = (l, s') -> length l = length ops.
+    runs H cf s ops = (l, s') -> length l = length ops.
   Proof.
-    induction ops as [|o ops IH]; intros s l s'; cbn [run].
+    induction ops as [|o ops IH]; intros s l s'; cbn [runs].
     - intros E; inversion E; reflexivity.
-    - destruct (step H cf s o) as [[s1 e] x]. destruct (run H cf s1 ops) as [l1 s2] eqn:Er.
+    - destruct (step H cf s o) as [[s1 e] x]. destruct (runs H cf s1 ops) as [l1 s2] eqn:Er.
       intros E; inversion E; subst. cbn [length]. f_equal. eapply IH; eauto.
   Qed.
 
@@ -242,16 +258,16 @@ Section Client.
   Qed.
 
   Lemma run_trace_inv cf : forall ops s dead, Inv s dead ->
-    trace_ok (sess_open s) dead (trace (fst (run H cf s ops))) = true.
+    trace_ok (sess_open s) dead (trace (fst (runs H cf s ops))) = true.
   Proof.
-    induction ops as [|o ops IH]; intros s dead HI; cbn [run]; [reflexivity|].
+    induction ops as [|o ops IH]; intros s dead HI; cbn [runs]; [reflexivity|].
     destruct (step H cf s o) as [[s1 e] x] eqn:Es.
-    destruct (run H cf s1 ops) as [l s2] eqn:Er. cbn [fst trace flat_map].
+    destruct (runs H cf s1 ops) as [l s2] eqn:Er. cbn [fst trace flat_map].
     destruct (step_trace _ _ _ _ _ _ _ Es HI) as (dead' & HI' & Hk).
     apply Hk. specialize (IH s1 dead' HI'). now rewrite Er in IH.
   Qed.
 
-  Theorem run_trace_ok cf ops : trace_ok [] [] (trace (fst (run H cf init_st ops))) = true.
+  Theorem run_trace_ok cf ops : trace_ok [] [] (trace (fst (runs H cf init_st ops))) = true.
   Proof. apply (run_trace_inv cf ops init_st []). split; cbn; intros ? []. Qed.
 
   (* ---------- every send call is judged correct (C09, C04) ---------- *)
@@ -266,18 +282,11 @@ Section Client.
     step H cf s (OSend m wf resp) = (s', e, r) ->
     send_ok (sm_enc m) (cf_ack cf) (chunk_of m) resp e r = true.
   Proof.
-    cbn [step]. unfold send_ok, chunk_of.
+    cbn [step]. unfold chunk_of.
     assert (Hnone : forall s0, (s0, @nil ev, RErr) = (s', e, r) ->
-      match sm_enc m with
-      | None => match filter (fun x => match x with EvWrite _ _ _ _ => true | _ => false end) e, r with [], RErr => true | _, _ => false end
-      | Some b => match filter (fun x => match x with EvWrite _ _ _ _ => true | _ => false end) e with
-                  | [] => match r with RErr => true | _ => false end
-                  | [EvWrite _ o a _] => bytes_eqb o b && bytes_eqb a (firstn (length a) b)
-                       && match r with ROk => bytes_eqb a b && (negb (cf_ack cf) || ack_matches match sm_chunk m with Some c => c | None => [] end resp) | RErr => true | _ => false end
-                       && (bytes_eqb a b || match r with RErr => true | _ => false end)
-                  | _ => false end
-      end = true).
-    { intros s0 E; inversion E; subst. cbn [filter]. now destruct (sm_enc m). }
+      send_ok (sm_enc m) (cf_ack cf) match sm_chunk m with Some c => c | None => [] end resp e r = true).
+    { intros s0 E; inversion E; subst. unfold send_ok. cbn [accepted_bytes flat_map length firstn].
+      destruct (sm_enc m); reflexivity. }
     destruct (s_sess s) as [[c [|]]|]; try apply Hnone.
     assert (Hgo : forall chunk,
       (cf_ack cf = true -> chunk = match sm_chunk m with Some c => c | None => [] end /\ chunk <> []) ->
@@ -287,31 +296,48 @@ Section Client.
                    if negb ok then (s, w, RErr) else if negb (cf_ack cf) then (s, w, ROk)
                    else let '(a, r0) := check_ack cf c chunk resp in (s, w ++ a, r0)
       end = (s', e, r) ->
-      match sm_enc m with
-      | None => match filter (fun x => match x with EvWrite _ _ _ _ => true | _ => false end) e, r with [], RErr => true | _, _ => false end
-      | Some b => match filter (fun x => match x with EvWrite _ _ _ _ => true | _ => false end) e with
-                  | [] => match r with RErr => true | _ => false end
-                  | [EvWrite _ o a _] => bytes_eqb o b && bytes_eqb a (firstn (length a) b)
-                       && match r with ROk => bytes_eqb a b && (negb (cf_ack cf) || ack_matches match sm_chunk m with Some c => c | None => [] end resp) | RErr => true | _ => false end
-                       && (bytes_eqb a b || match r with RErr => true | _ => false end)
-                  | _ => false end
-      end = true).
-    { intros chunk Hboth. destruct (sm_enc m) as [e0|]; [|inversion 1; subst; reflexivity].
+      send_ok (sm_enc m) (cf_ack cf) match sm_chunk m with Some c => c | None => [] end resp e r = true).
+    { intros chunk Hboth. unfold send_ok. destruct (sm_enc m) as [e0|]; [|inversion 1; subst; reflexivity].
       unfold do_write. destruct wf as [n|]; cbn [negb].
-      - inversion 1; subst. cbn [filter]. rewrite bytes_eqb_refl, firstn_firstn_len, bytes_eqb_refl. cbn [andb].
-        now rewrite orb_true_r.
+      - inversion 1; subst. cbn [accepted_bytes flat_map]. rewrite app_nil_r, firstn_firstn_len, bytes_eqb_refl. reflexivity.
       - destruct (cf_ack cf) eqn:Ea; cbn [negb].
         + destruct (Hboth eq_refl) as [Hch Hne]. unfold check_ack. rewrite <- Hch. pose proof (ack_no_panic resp) as Hnp.
           destruct (U_ack Stream resp) as [[a rr]|er|] eqn:Eu; [| |contradiction]; destruct (cf_timeout cf);
             try destruct (bytes_eqb a chunk) eqn:Eab;
-            inversion 1; subst; cbn [app filter]; rewrite !bytes_eqb_refl, ?firstn_all, ?bytes_eqb_refl; cbn [andb orb negb];
+            inversion 1; subst; cbn [app accepted_bytes flat_map]; rewrite ?app_nil_r, firstn_all, !bytes_eqb_refl; cbn [andb orb negb];
             try reflexivity;
             unfold ack_matches; rewrite Eu, Eab; cbn [andb];
             (destruct (bytes_eqb _ []) eqn:Ee; [apply bytes_eqb_eq in Ee; exfalso; now apply Hne | reflexivity]).
-        + inversion 1; subst. cbn [filter]. now rewrite !bytes_eqb_refl, firstn_all, bytes_eqb_refl. }
+        + inversion 1; subst. cbn [accepted_bytes flat_map]. now rewrite app_nil_r, firstn_all, !bytes_eqb_refl. }
     destruct (cf_ack cf) eqn:Ea.
     - destruct (sm_chunk m) as [[|c0 ch]|] eqn:Ec; try apply Hnone.
       apply Hgo. intros _. split; [reflexivity | discriminate].
     - apply Hgo. discriminate.
+  Qed.
+
+  (* C04: with acknowledgements required, success is exactly "whole message written, then
+     an ack carrying this message's (non-empty) chunk id was decoded from the response" *)
+  Theorem send_ack_ok_iff cf s m wf resp s' e r c :
+    cf_ack cf = true -> s_sess s = Some (c, true) ->
+    step H cf s (OSend m wf resp) = (s', e, r) ->
+    (r = ROk <-> exists ch b rest, sm_chunk m = Some ch /\ ch <> [] /\ sm_enc m = Some b /\ wf = None /\
+                               U_ack Stream resp = Ok (ch, rest)).
+  Proof.
+    intros Ha Hs. cbn [step]. rewrite Hs, Ha.
+    destruct (sm_chunk m) as [[|c0 ch]|] eqn:Ec.
+    - inversion 1; subst. split; [discriminate|]. intros (ch' & b & rest & E1 & E2 & _). inversion E1; subst. contradiction.
+    - destruct (sm_enc m) as [e0|] eqn:Ee.
+      + unfold do_write. destruct wf as [n|]; cbn [negb].
+        * inversion 1; subst. split; [discriminate|]. intros (? & ? & ? & _ & _ & _ & E & _). discriminate.
+        * cbn [negb]. unfold check_ack. pose proof (ack_no_panic resp) as Hnp.
+          destruct (U_ack Stream resp) as [[a rr]|er|] eqn:Eu; [| |contradiction].
+          -- destruct (bytes_eqb a (c0 :: ch)) eqn:Eab; inversion 1; subst.
+             ++ apply bytes_eqb_eq in Eab. subst a. split; [|reflexivity]. intros _.
+                exists (c0 :: ch), e0, rr. repeat split; auto. discriminate.
+             ++ split; [discriminate|]. intros (ch' & b & rest & E1 & _ & _ & _ & E5).
+                inversion E1; subst. inversion E5; subst. rewrite bytes_eqb_refl in Eab. discriminate.
+          -- inversion 1; subst. split; [discriminate|]. intros (? & ? & ? & _ & _ & _ & _ & E). discriminate.
+      + inversion 1; subst. split; [discriminate|]. intros (? & ? & ? & _ & _ & E & _). discriminate.
+    - inversion 1; subst. split; [discriminate|]. intros (? & ? & ? & E & _). discriminate.
   Qed.
 End Client.
